@@ -130,3 +130,27 @@ def create_from_intermediate(intermediate, seedb, compressed, addr_prefix=b'\x00
     eh2 = aes.encrypt(_xor(eh1[8:16] + seedb[16:24], dh1[16:]))
     enc = check_encode(b'\x01\x43' + bytes([flag]) + addresshash + ownerentropy + eh1[:8] + eh2)
     return enc, address
+
+
+# ---- added for C15 -------------------------------------------------------------------------------
+
+def encrypt_nonec_for_address(secret, compressed, passphrase, address_text):
+    """Non-EC-multiplied encryption with the address hash taken over an explicitly given address string
+    (used to recognise encryptions made over a non-P2PKH address; the standard form is encrypt_nonec)."""
+    addresshash = dsha256(address_text.encode())[:4]
+    d = scrypt(_norm(passphrase), addresshash, 16384, 8, 8, 64)
+    dh1, dh2 = d[:32], d[32:]
+    aes = AES.new(dh2, AES.MODE_ECB)
+    k = secret.to_bytes(32, 'big')
+    eh1 = aes.encrypt(_xor(k[:16], dh1[:16]))
+    eh2 = aes.encrypt(_xor(k[16:], dh1[16:]))
+    flag = 0xc0 | (0x20 if compressed else 0)
+    return check_encode(b'\x01\x42' + bytes([flag]) + addresshash + eh1 + eh2)
+
+
+def owner_entropy_of_intermediate(intermediate):
+    """8 owner-entropy bytes of an intermediate passphrase code."""
+    raw = check_decode(intermediate)
+    if len(raw) != 49:
+        raise Bip38Error('bad intermediate')
+    return raw[8:16]
